@@ -174,23 +174,37 @@ Proof.
   rewrite (read_token_wbytes BClose [] X I). reflexivity.
 Qed.
 
+Lemma balanced_arr vs X : forallb wf_val vs = true ->
+  balanced_read (wbytes (flat_map toks_val vs ++ [BClose]) ++ X) = Some X.
+Proof.
+  intros W. apply balanced_inner.
+  - apply Forall_flat_map. rewrite forallb_forall in W. apply Forall_forall. intros x Hx. apply wf_val_toks, W, Hx.
+  - apply bal_flat; [lia|]. apply Forall_forall. intros x _ d. apply bal_val.
+Qed.
+
+Lemma balanced_obj fs g X : forallb wf_field fs = true ->
+  balanced_read (wbytes (toks_fields fs ++ ghost_toks g ++ [BClose]) ++ X) = Some X.
+Proof.
+  intros W. rewrite app_assoc. apply balanced_inner.
+  - apply Forall_app; split; [apply wf_fields_toks, W|apply ghost_wf].
+  - rewrite bal_app. unfold toks_fields. rewrite (bal_flat toks_field fs 1).
+    + apply bal_ghost. lia.
+    + lia.
+    + apply Forall_forall. intros f _ d L0. unfold toks_field. rewrite bal_app, bal_ghost by exact L0.
+      destruct (bf_key f); cbn [tok_of bal]; apply bal_val; exact L0.
+Qed.
+
+Lemma wf_obj_fields fs g : wf_val (VObj fs g) = true -> forallb wf_field fs = true.
+Proof. cbn [wf_val]. intros H. apply andb_prop in H as [_ H]. exact H. Qed.
+
 Lemma value_read_val v X : wf_val v = true -> value_read (wbytes (toks_val v) ++ X) = Some X.
 Proof.
   intros W. pose proof (wf_val_toks v W) as WT. unfold value_read.
   destruct v as [s|c|vs|fs g]; cbn [toks_val] in *.
   - inversion WT; subst. rewrite read_token_wbytes by assumption. destruct s; reflexivity.
   - inversion WT; subst. rewrite read_token_wbytes by assumption. reflexivity.
-  - inversion WT as [|? ? _ WI]; subst. rewrite read_token_wbytes by exact I.
-    apply Forall_app in WI as [WI _]. apply balanced_inner; [exact WI|].
-    apply bal_flat; [lia|]. apply Forall_forall. intros x _ d. apply bal_val.
-  - inversion WT as [|? ? _ WI]; subst. rewrite read_token_wbytes by exact I.
-    rewrite app_assoc in WI |- *. apply Forall_app in WI as [WI _]. apply balanced_inner; [exact WI|].
-    rewrite bal_app.
-    rewrite (bal_flat (fun f : bfield => ghost_toks (bf_ghost f) ++ tok_of (bf_key f) :: BEqual :: toks_val (bf_val f)) fs 1).
-    + apply bal_ghost. lia.
-    + lia.
-    + apply Forall_forall. intros f _ d L0. rewrite bal_app, bal_ghost by exact L0.
-      destruct (bf_key f); cbn [tok_of bal]; apply bal_val; exact L0.
+  - rewrite read_token_wbytes by exact I. apply balanced_arr, W.
+  - rewrite read_token_wbytes by exact I. apply (balanced_obj fs g X), (wf_obj_fields _ _ W).
 Qed.
 
 (* ---------------------------------------------------------------- cursors as token sequences
